@@ -629,8 +629,8 @@ def malformed(ctx):
         for bad in (-1, 0.3):
             res = fits_tools.compress(make_hdulist(img, 'cdelt'), bad)
             if res is not None:
-                ctx.fail('corr', dict(op='compress', f=bad), "a non-positive / non-integer factor was accepted",
-                         dict(site='compress', what='malformed-factor'))
+                ctx.count('malformed-accept/refuse-differs')
+                ctx.note(f"out-of-domain factor {bad!r} was accepted by compress (allowed; not a failure)")
             ctx.count('malformed')
         # --- expand: tampered BN_* keys on a genuinely compressed file ---
         for trial in range(10 if ctx.quick else 40):
@@ -677,10 +677,20 @@ def malformed(ctx):
         ctx.count('malformed:' + (got if isinstance(got, str) else 'ok'))
         ctx.case(dict(case, implementation=got if isinstance(got, str) else 'ok', model=out[:40]))
         s = dict(site=case['op'], what='malformed', detail=case.get('tamper', case.get('kind')))
-        if isinstance(got, str) and got != 'ok':
-            want = MODEL_NONE if got == 'none' else {got}
-            if m[0] != 'err' or m[1] not in want:
-                ctx.fail('corr', case, f"implementation: {got}; model: {out[:60]}", s)
+        # Everything in this stream lies OUTSIDE what the property quantifies over (axis < 2, factor <= 0, no scale
+        # keyword, tampered BN_* keys).  How such input is refused -- None with an ERROR log, IndexError, ValueError
+        # from scipy -- and even whether it is refused is freedom the property leaves, so only this is compared:
+        # when BOTH sides accept, they must compute the same thing.  The refusal classes are recorded in the
+        # histogram and a disagreement on accept/refuse is a note, not a failure.
+        impl_refuses = isinstance(got, str) and got != 'ok'
+        model_refuses = m[0] == 'err'
+        if impl_refuses or model_refuses:
+            if impl_refuses != model_refuses:
+                ctx.count('malformed-accept/refuse-differs')
+                ctx.note(f"out-of-domain input {case}: implementation {'refuses (' + got + ')' if impl_refuses else 'accepts'}, "
+                         f"model {'refuses (' + m[1] + ')' if model_refuses else 'accepts'} (allowed; not a failure)")
+            elif (m[1] not in MODEL_NONE) if got == 'none' else (m[1] != got):
+                ctx.count('malformed-refusal-class-differs')
         else:
             if m[0] != 'ok':
                 ctx.fail('corr', case, f"implementation accepts; model: {out[:60]}", s)
